@@ -4,9 +4,13 @@ import (
 	"bufio"
 	"context"
 	"fmt"
+	"google.golang.org/grpc/codes"
 	"os"
 	"path/filepath"
+	"strconv"
 	"strings"
+	"sync"
+	"sync/atomic"
 	"time"
 
 	"github.com/attestantio/dirk/testing/resources"
@@ -91,6 +95,52 @@ func wireEngine(port string, repo string) {
 			continue
 		}
 		payload := unhex(f[2])
+		if strings.HasPrefix(f[0], "burst:") {
+			// burst:<ms>:<connections>:<goroutines per connection>:<method>  — that many callers repeat the (valid) request
+			// for that long: whatever is shared between in-flight requests in the server must survive it
+			p := strings.SplitN(f[0], ":", 5)
+			ms, _ := strconv.Atoi(p[1])
+			nc, _ := strconv.Atoi(p[2])
+			ng, _ := strconv.Atoi(p[3])
+			until := time.Now().Add(time.Duration(ms) * time.Millisecond)
+			var okN, errN int64
+			var wg sync.WaitGroup
+			for ci := 0; ci < nc; ci++ {
+				cc, err := grpc.NewClient("127.0.0.1:"+port, tlsOpt(&c1))
+				if err != nil {
+					continue
+				}
+				for g := 0; g < ng; g++ {
+					wg.Add(1)
+					go func() {
+						defer wg.Done()
+						for time.Now().Before(until) {
+							var rp []byte
+							ctx, cancel := context.WithTimeout(context.Background(), 10*time.Second)
+							err := cc.Invoke(ctx, p[4], &payload, &rp, grpc.ForceCodec(rawCodec{}))
+							cancel()
+							if err != nil {
+								atomic.AddInt64(&errN, 1)
+								if status.Code(err) == codes.Unavailable {
+									return
+								}
+							} else {
+								atomic.AddInt64(&okN, 1)
+							}
+						}
+					}()
+				}
+				defer cc.Close()
+			}
+			wg.Wait()
+			live := alive()
+			fmt.Fprintf(out, "resp:burst:ok=%d:err=%d %s\n", okN, errN, live)
+			out.Flush()
+			if live == "DEAD" {
+				return
+			}
+			continue
+		}
 		var reply []byte
 		t0 := time.Now()
 		ctx, cancel := context.WithTimeout(context.Background(), 30*time.Second)
